@@ -548,3 +548,41 @@ pub fn maybe_constant(ctx: &mut Ctx, den: u64, allow_extremes: bool) -> Option<D
     };
     Some(d)
 }
+
+/// An operand that is the RESULT of an earlier API call on generated values (negation, abs,
+/// rounding functions, a difference of related values, a product, a quotient by a small integer,
+/// a square root, a sum with a tiny f64): such values carry the word patterns results really have
+/// (-0.0 low words, subnormal or oddly placed low words, exact ties produced by renormalisation).
+/// The oracle always works from the actual words, so any valid result is a legitimate input.
+pub fn derived_operand(ctx: &mut Ctx, emin: i64, emax: i64) -> Option<Dd> {
+    let a = dd_exp(ctx, emin, emax, true);
+    let b = if ctx.flag() { related(ctx, a, emin, emax) } else { dd_exp(ctx, emin, emax, true) };
+    let which = ctx.below(14);
+    let small = [3.0, 7.0, 10.0, 0.1, 1.0 / 3.0][ctx.below(5) as usize];
+    let tiny = f64_exp(ctx, -1022, -900);
+    let (ta, tb) = (a.tf(), b.tf());
+    let r = crate::engine::guard(|| match which {
+        0 => -ta,
+        1 => ta.abs(),
+        2 => ta.trunc(),
+        3 => ta.floor(),
+        4 => ta.round(),
+        5 => ta.fract(),
+        6 => ta - tb,
+        7 => ta + tb,
+        8 => ta * tb,
+        9 => ta / small,
+        10 => ta.abs().sqrt(),
+        11 => ta + tiny,
+        12 => ta * small,
+        _ => -(ta - ta.hi()),
+    })
+    .ok()?;
+    let d = Dd::of(r);
+    if d.valid() && (d.hi == 0.0 || (d.hi.abs() >= pow2_f64(emin.max(-1022)) && d.hi.abs() < pow2_f64((emax + 1).min(1023)))) {
+        ctx.label("operand:result-of-earlier-operation");
+        Some(d)
+    } else {
+        None
+    }
+}
